@@ -662,6 +662,8 @@ _M1_SIZE = {"size", "empty", "length"}
 
 def _m1_props(rel):
     out = ["C10"]
+    if rel.endswith("primes.cpp"):
+        out.append("C15")
     if rel.startswith("lib/fft/") or rel.endswith(("stft.cpp", "fft.cpp", "ifft.cpp", "czt.cpp")):
         out.append("C02")
     if rel.endswith(("snr.cpp", "awgn.cpp", "random.cpp", "thd.cpp", "sinad.cpp")):
@@ -703,6 +705,39 @@ def _m1_key_atoms(f, expr, static_id, defs, seen):
     return out
 
 
+def _m1_class_rw(prog, g, cls, depth=0, seen=None):
+    """(fields read, fields written) by a member function and the members of the same class it calls on this"""
+    seen = seen if seen is not None else set()
+    if g is None or g.usr in seen or depth > 4:
+        return set(), set()
+    seen.add(g.usr)
+    rd, wr = set(), set()
+    for (_, _, k) in g._writes():
+        if k[0] == "field":
+            wr.add(k[1])
+    for n in g.walk():
+        fld = _y1_this_field(n) if n.k == "MemberExpr" else None
+        if fld:
+            rd.add(fld)
+        if n.is_call() and n.callee and n.callee.get("cls") == cls and n.callee.get("usr"):
+            obj = n.call_object()
+            if obj is None or obj.strip_all().k == "CXXThisExpr":
+                r2, w2 = _m1_class_rw(prog, prog.functions.get(n.callee["usr"]), cls, depth + 1, seen)
+                rd |= r2
+                wr |= w2
+    return rd, wr
+
+
+def _m1_has_engine(prog, cls, depth=0):
+    cj = prog.classes.get(cls) or {}
+    for x in cj.get("fields", []):
+        if re.search(r"mt19937|mersenne_twister|linear_congruential|_distribution<|random_device", x["ctype"]):
+            return True
+        if depth < 2 and x["ctype"] in prog.classes and _m1_has_engine(prog, x["ctype"], depth + 1):
+            return True
+    return False
+
+
 def rule_M1(prog, fixture=False):
     res = RuleResult("M1", "a value that a function keeps in static / thread_local storage and computes again only under a condition "
                            "is keyed by everything it was computed from: every argument (scalar, element count or contents of a "
@@ -733,6 +768,47 @@ def rule_M1(prog, fixture=False):
                 continue
             if flow is None:
                 flow = Flow(f, prog, control=False)
+            from .flow import is_container_type
+            if not is_container_type(d.get("dt", "")) and "LRUCache<" not in d.get("dt", ""):
+                # an object with member functions, kept between calls: what its first use in a call finds is what the previous
+                # call left.  Reported when that first use advances a member it also reads and hands the result on.
+                uses = []
+                for n in f.walk():
+                    if n.is_call() and n.callee and n.callee.get("cls") and n.k != "CXXConstructExpr":
+                        obj = n.call_object()
+                        o = obj.strip_all() if obj is not None else None
+                        if o is not None and o.k == "DeclRefExpr" and o.decl and o.decl.get("k") == "global" and o.decl.get("qn", o.decl["n"]) == qn:
+                            uses.append(n)
+                    elif n.k == "CXXOperatorCallExpr" and n.op == "=" and len(n.c) >= 3:
+                        o = n.c[1].strip_all()
+                        if o.k == "DeclRefExpr" and o.decl and o.decl.get("k") == "global" and o.decl.get("qn", o.decl["n"]) == qn:
+                            uses.append(n)
+                muts = [n for n in uses if n.k == "CXXOperatorCallExpr" or not n.callee.get("const")]
+                for c in muts:
+                    if c.k == "CXXOperatorCallExpr":
+                        continue
+                    cls_ = c.callee.get("cls")
+                    if not c.callee.get("repo") or _m1_has_engine(prog, cls_):
+                        continue
+                    if any(m is not c and f.precedes(m, c) for m in muts):
+                        continue          # something re-establishes (or at least touches) the object first: not judged
+                    if c.tc in ("void", None) or (c.parent is not None and c.parent.k == "CompoundStmt"):
+                        continue          # the result is not used
+                    rd, wr = _m1_class_rw(prog, prog.functions.get(c.callee.get("usr")), cls_)
+                    both = sorted(rd & wr)
+                    cj = prog.classes.get(cls_) or {}
+                    scal = [x["name"] for x in cj.get("fields", []) if x["name"] in both and not is_container_type(x["ctype"])]
+                    key2 = "M1:%s:%s:carried-state" % (f.name.replace("(anonymous namespace)::", "").split("(")[0], d["n"])
+                    rel = prog.rel(f.file)
+                    if scal:
+                        nfun += 1
+                        res.add(key2, VIOLATED, "%s:%d" % (rel, c.line), "%s in %s" % (d["n"], f.short),
+                                "%s is kept between calls and the first thing a call does with it is %s, which reads and advances %s: "
+                                "the call continues from where the previous call stopped, so its result depends on the arguments of "
+                                "earlier calls" % (d["n"], c.text()[:60], ", ".join(scal)), func=f.name, extra={"props": _m1_props(rel)})
+                    break
+                if any(c.k != "CXXOperatorCallExpr" for c in muts):
+                    continue
             writes = []       # (node, value expressions)
             for n in f.walk():
                 tgt, vals = None, []
